@@ -1173,6 +1173,7 @@ pub fn strip_observations(t: &TreeSpec) -> TreeSpec {
       children: children.iter().map(strip_observations).collect(),
       how: match how {
         ConcatHow::AddObserved => ConcatHow::NestedTyped,
+        ConcatHow::AddHeld => ConcatHow::AddTyped,
         h => h.clone(),
       },
     },
